@@ -26,7 +26,7 @@
 #include <stdint.h>
 
 #define RT_MAXT 512
-#define CELL_BITS 19
+#define CELL_BITS 21
 #define NCELLS (1u << CELL_BITS)
 
 typedef struct { uint64_t pc; uint32_t clk; uint16_t tid; uint8_t mask; uint8_t flags; /* 1 used, 2 write */ } Slot;
